@@ -776,7 +776,13 @@ def squareform(x, force='no', checks=True):
         if x.shape[0] != x.shape[1]:
             raise ValueError('The matrix argument must be square.')
         if checks:
-            raise Unsupported('squareform(checks=True) on a symbolic matrix')
+            # scipy's is_valid_dm: symmetric with zero diagonal (decided by the solver, forks if open)
+            for i in range(n):
+                if not bool(R.lift(x[i, i]) == 0):
+                    raise ValueError('Distance matrix \'X\' diagonal must be zero.')
+                for j in range(i + 1, n):
+                    if not bool(R.lift(x[i, j]) == R.lift(x[j, i])):
+                        raise ValueError('Distance matrix \'X\' must be symmetric.')
         out = real_np.empty(n * (n - 1) // 2, dtype=object)
         k = 0
         for i in range(n):
